@@ -512,6 +512,7 @@ def ro_trace(seed, n_events=250, workdir=None, keep_obs=False, listeners=()):
     rec.opts = sch.opts
     n_ro = rng.choice([1, 1, 2, 3])
     ros = [RO_BASE + i for i in range(n_ro)]
+    next_ro = [RO_BASE + n_ro]
     sch.boot(ro=[r for r in ros if rng.random() < 0.6])
     while rec.total_events() < n_events:
         r = rng.random()
@@ -519,7 +520,15 @@ def ro_trace(seed, n_events=250, workdir=None, keep_obs=False, listeners=()):
         if r < 0.05:
             dead = [x for x in ros if x not in sch.alive]
             if dead:
-                sch.start_ro(rng.choice(dead))
+                # the real transport gives every read-only connection a fresh node id: a restarted read-only process is
+                # a new node for the voters (answers addressed to the old one can never reach it)
+                x = rng.choice(dead)
+                if x in sch.clock and sch.clock[x] > 0:
+                    ros.remove(x)
+                    x = next_ro[0]
+                    next_ro[0] += 1
+                    ros.append(x)
+                sch.start_ro(x)
         elif r < 0.08 and live_ro:
             x = rng.choice(live_ro)
             sch.rec.do(('kill', x))
